@@ -338,6 +338,14 @@ class Binding(object):
                 if getattr(self, "_shared_error", None) is None:
                     self._shared_error = ResolverError("")
                 raise self._shared_error
+            if int(h64(out[1])[12:16], 16) % 4 == 0:
+                # one instance per failure site, raised again whenever the site fails again: in a later request, from
+                # another document, at another response position (errors kept as constants by the application)
+                shared = self.__dict__.setdefault("_shared_by_message", {})
+                key = (out[1], repr(out[2]))
+                if key not in shared:
+                    shared[key] = ResolverError(message_as_raised(out[1]), extensions=out[2])
+                raise shared[key]
             if int(h64(out[1])[8:12], 16) % 3 == 0:
                 # an application error class deriving from the resolver error with a constructor of its own:
                 # copy.copy() / pickling cannot rebuild it from .args
